@@ -157,7 +157,8 @@ def _synthetic(seed, variant=0):
     df = pandas.DataFrame({"pressure": numpy.concatenate([p, pd_]), "loading": numpy.concatenate([n, nd])})
     df["enthalpy"] = 8 + 12 * numpy.exp(-df["loading"] / 3.0)
     return pygaps.PointIsotherm(isotherm_data=df, pressure_key="pressure", loading_key="loading", branch=[False] * len(p) + [True] * len(pd_), material=dict(name="verif-c04-%d" % (seed % 5), **({"density": 1.3, "molar_mass": 250.0} if seed % 2 else {"density": 2, "molar_mass": 250})),
-                                adsorbate=ads, temperature=T, pressure_mode="relative", pressure_unit=None, user="verif", run=3.0, **{k: v for k, v in gen.DEFAULT_UNITS.items() if not k.startswith("pressure")})
+                                adsorbate=ads, pressure_mode="relative", pressure_unit=None, user="verif", run=3.0,
+                                **dict({k: v for k, v in gen.DEFAULT_UNITS.items() if not k.startswith("pressure")}, **gen.temp_kw(T, celsius=seed % 3 == 0)))
 
 
 def _co2(seed):
@@ -166,7 +167,7 @@ def _co2(seed):
     p = numpy.exp(numpy.linspace(math.log(1e-3), math.log(8.0), 45))
     K, nm = 0.8 + (seed % 5) * 0.2, 6.0
     n = nm * K * p / (1 + K * p)
-    return pygaps.PointIsotherm(pressure=list(p), loading=list(n), branch="ads", material="verif-c04-co2", adsorbate="carbon dioxide", temperature=250.0, **gen.DEFAULT_UNITS)
+    return pygaps.PointIsotherm(pressure=list(p), loading=list(n), branch="ads", material="verif-c04-co2", adsorbate="carbon dioxide", **dict(gen.DEFAULT_UNITS, **gen.temp_kw(250.0, celsius=seed % 3 == 1)))
 
 
 def _model(seed):
